@@ -306,7 +306,7 @@ class EvTables:
             for _ in range(4):
                 t2 = self.inline_helpers(t)
                 if self._returns_result(f):
-                    t2 = self.inline_tail(t2)
+                    t2 = T.monad_tail(T.strip_tail_returns(self.inline_tail(t2)), ())
                 t2 = T.alpha(T.normalise(self.beta_all(t2)))
                 if t2 == t:
                     break
@@ -315,6 +315,37 @@ class EvTables:
             self._inline_parser = False
         self._cache[key] = t
         return t
+
+    def deep_term(self, f):
+        """function term with the crate-local helpers it calls inlined and Result/Option combinators in canonical form"""
+        key = ("deep_term", f.path)
+        if key not in self._cache:
+            t = self.fn_term(f, inline_pure=True)
+            for _ in range(4):
+                t2 = self.canon_result(self.inline_helpers(t))
+                if t2 == t:
+                    break
+                t = t2
+            self._cache[key] = t
+        return self._cache[key]
+
+    def flat_term(self, f):
+        """parser_term with the single-use immutable bindings (v<k>) substituted into their use: the dataflow
+        expression, for identity-flow rules that do not care in which statement a value is computed"""
+        t = self.parser_term(f)
+        items = list(t[1:]) if isinstance(t, tuple) and t and t[0] == "seq" else [t]
+        env_, kept = {}, []
+        for it in items:
+            if isinstance(it, tuple) and len(it) == 3 and it[0] == "let" and isinstance(it[1], str) and it[1].startswith("v"):
+                n = sum(1 for s_ in subterms(t) if s_ == ("var", it[1]))
+                if n == 1:
+                    env_[it[1]] = it[2]
+                    continue
+            kept.append(it)
+        flat = tuple(kept)
+        for _ in range(len(env_) + 1):
+            flat = subst_vars(flat, env_)
+        return flat[0] if len(flat) == 1 else ("seq",) + flat
 
     def rec_names(self):
         wn = self.eval_names()
